@@ -40,6 +40,21 @@
        QUIC/TLS handshake against the listener at that instant, j.. are the
        certhashes of listener.Multiaddr().  Same model, same monitor.
 
+       Lifecycle tokens (listener timelines only):  5 code dt  may stand before any event:
+       an operation on the transport that the next event observes, carried out dt ns
+       into that event's advance (0 for the other events), before its observation:
+       code = 1 Listen on a UDP port in use (fails in the QUIC layer)
+            | 2 Listen on an address the transport refuses (no /webtransport, a /certhash)
+            | 3 the observed listener is closed   | 4 Listen succeeds (observed from now on)
+            | 5 a further listener on the same transport (the observation goes through it)
+            | 6 Listen on the port of its own open listener (fails in the QUIC layer)
+       They are NOT events: the decoder drops them, so model and monitor see the same
+       timeline of observations as without them.  That is the content of the claim
+       "a Listen that fails, and opening/closing listeners, do not touch the certificate
+       manager (created once per transport)": conformance compares every observation
+       with the manager of the model that knows nothing of these operations, and the
+       property's clauses are judged at every observation as always.
+
    kind 2 : one verifyRawCerts call
        2 n CERT^n  k (code id)^k  res
        CERT = id parses pubrsa sig nb na    (see Model.xcert; nb/na relative to time.Now())
@@ -439,6 +454,7 @@ Fixpoint decode_events (fuel : nat) (l : list Z) : option (list ev) :=
                   | Some (s, r') => option_map (cons (EProbe s)) (decode_events f r')
                   | None => None end
       | 4 :: s :: e :: h :: r => option_map (cons (ERegen s e h)) (decode_events f r)
+      | 5 :: _ :: _ :: r => decode_events f r      (* lifecycle token: not an event *)
       | _ => None
       end
   end.
